@@ -777,6 +777,9 @@ def run(ctx: Ctx) -> None:
     ctx.attempt(rule_r7_requested_files, ctx)
     ctx.attempt(rule_r8_normalize, ctx)
     ctx.attempt(rule_r9_ambient, ctx)
+    from . import c10text
+
+    c10text.run(ctx)
     ctx.assume("dict iteration order is insertion order (language guarantee), so dicts filled in a deterministic order are deterministic")
     ctx.assume("which of several simultaneous directory faults is reported first may depend on set order; the rejection itself does not")
     ctx.undecided("read_files == read_namespace type equality; case-insensitive file systems; symlink semantics of the OS; tie order of colliding (same name+version) lookup definitions")
